@@ -36,12 +36,14 @@ package tracker
 
 //@ func tracker.Inflights.reset [C16]
 //@   requires wf_inflights(in)
+//@   frame tracker.Inflights: in
 //@   ensures #emptied in.count == 0 && in.bytes == 0 && in.start == 0 && wf_inflights(in)
 //@   ensures #frame in.size == old(in.size) && in.maxBytes == old(in.maxBytes)
 
 //@ func tracker.Inflights.grow [C16]
 //@   requires wf_inflights(in) && len(in.buffer) < in.size
-//@   ensures #bigger len(in.buffer) > old(len(in.buffer)) && len(in.buffer) <= in.size
+//@   frame tracker.Inflights: in
+//@   ensures #bigger len(in.buffer) > old(len(in.buffer)) && len(in.buffer) <= in.size && fresh(in.buffer)
 //@   ensures #kept forall j int :: 0 <= j && j < old(len(in.buffer)) ==>
 //@             in.buffer[j].index == old(in.buffer[j].index) && in.buffer[j].bytes == old(in.buffer[j].bytes)
 //@   ensures #frame in.size == old(in.size) && in.maxBytes == old(in.maxBytes) && in.count == old(in.count)
@@ -50,6 +52,8 @@ package tracker
 //@ func tracker.Inflights.Add [C16]
 //@   requires #wf wf_inflights(in)
 //@   requires #not-full [C16 C14] !fullSpec(in)
+//@   frame tracker.Inflights: in
+//@   frame elems tracker.inflight: in.buffer
 //@   ensures #wf wf_inflights(in)
 //@   ensures #enqueued [C16] in.count == old(in.count) + 1 && in.start == old(in.start)
 //@             && qidx(in, old(in.count)) == index && qbytes(in, old(in.count)) == bytes
@@ -61,6 +65,7 @@ package tracker
 
 //@ func tracker.Inflights.FreeLE [C16]
 //@   requires #wf wf_inflights(in)
+//@   frame tracker.Inflights: in
 //@   ensures #wf wf_inflights(in)
 //@   ensures #frame in.size == old(in.size) && in.maxBytes == old(in.maxBytes)
 //@   ensures #prefix-freed [C16] in.count <= old(in.count)
@@ -73,3 +78,92 @@ package tracker
 //@   loop 1 invariant #buffer in.buffer == old(in.buffer)
 //@   loop 1 invariant #freed forall j int :: 0 <= j && j < i ==> qidx(in, j) <= to
 //@   loop 1 decreases in.count - i
+
+//@ -- ------------------------------------------------------------------------------------------
+//@ -- Progress
+
+//@ pred wf_progress(pr *Progress) := pr != nil && wf_inflights(pr.Inflights) && pr.Match < pr.Next && pr.State <= 2
+//@ pred progress_untouched_but_flow(pr *Progress) := pr.Match == old(pr.Match) && pr.IsLearner == old(pr.IsLearner) && pr.RecentActive == old(pr.RecentActive) && pr.Inflights == old(pr.Inflights)
+
+//@ func tracker.Progress.ResetState [C16 C09]
+//@   requires wf_progress(pr)
+//@   frame tracker.Progress: pr
+//@   frame tracker.Inflights: pr.Inflights
+//@   ensures #state pr.State == state && !pr.MsgAppFlowPaused && pr.PendingSnapshot == 0
+//@   ensures #inflights-emptied [C16] pr.Inflights.count == 0 && pr.Inflights.bytes == 0 && wf_inflights(pr.Inflights)
+//@   ensures #kept pr.Match == old(pr.Match) && pr.Next == old(pr.Next) && pr.sentCommit == old(pr.sentCommit) && progress_untouched_but_flow(pr)
+
+//@ func tracker.Progress.BecomeProbe [C16 C09]
+//@   requires wf_progress(pr) && pr.Match < 18446744073709551615 && pr.PendingSnapshot < 18446744073709551615
+//@   frame tracker.Progress: pr
+//@   frame tracker.Inflights: pr.Inflights
+//@   ensures #probe [C09] pr.State == StateProbe && !pr.MsgAppFlowPaused && pr.PendingSnapshot == 0
+//@   ensures #next [C09] pr.Next == (old(pr.State) == StateSnapshot ? max(pr.Match + 1, old(pr.PendingSnapshot) + 1) : pr.Match + 1)
+//@   ensures #sent-commit pr.sentCommit == min(old(pr.sentCommit), pr.Next - 1)
+//@   ensures #wf wf_progress(pr) && progress_untouched_but_flow(pr) && pr.Inflights.count == 0
+
+//@ func tracker.Progress.BecomeReplicate [C16]
+//@   requires wf_progress(pr) && pr.Match < 18446744073709551615
+//@   frame tracker.Progress: pr
+//@   frame tracker.Inflights: pr.Inflights
+//@   ensures #replicate pr.State == StateReplicate && pr.Next == pr.Match + 1 && !pr.MsgAppFlowPaused && pr.PendingSnapshot == 0
+//@   ensures #wf wf_progress(pr) && progress_untouched_but_flow(pr) && pr.sentCommit == old(pr.sentCommit) && pr.Inflights.count == 0
+
+//@ func tracker.Progress.BecomeSnapshot [C16 C09]
+//@   requires wf_progress(pr) && snapshoti >= pr.Match && snapshoti < 18446744073709551615
+//@   frame tracker.Progress: pr
+//@   frame tracker.Inflights: pr.Inflights
+//@   ensures #snapshot [C09 C16] pr.State == StateSnapshot && pr.PendingSnapshot == snapshoti && pr.Next == snapshoti + 1 && pr.sentCommit == snapshoti
+//@   ensures #wf wf_progress(pr) && progress_untouched_but_flow(pr) && pr.Inflights.count == 0 && !pr.MsgAppFlowPaused
+
+//@ func tracker.Progress.SentEntries [C16 C14]
+//@   requires #wf wf_progress(pr)
+//@   requires #state [C14] pr.State != StateSnapshot
+//@   requires #not-full [C16 C14] pr.State == StateReplicate && entries > 0 ==> !fullSpec(pr.Inflights)
+//@   requires #no-wrap pr.Next + entries <= 18446744073709551615
+//@   frame tracker.Progress: pr
+//@   frame tracker.Inflights: pr.Inflights
+//@   ensures #replicate [C16] old(pr.State) == StateReplicate ==> pr.MsgAppFlowPaused == fullSpec(pr.Inflights)
+//@        && (entries > 0 ==> pr.Next == old(pr.Next) + entries && pr.Inflights.count == old(pr.Inflights.count) + 1
+//@                           && qidx(pr.Inflights, old(pr.Inflights.count)) == pr.Next - 1 && qbytes(pr.Inflights, old(pr.Inflights.count)) == bytes)
+//@        && (entries <= 0 ==> pr.Next == old(pr.Next) && pr.Inflights.count == old(pr.Inflights.count))
+//@   ensures #probe [C16] old(pr.State) == StateProbe ==> pr.Next == old(pr.Next) && pr.MsgAppFlowPaused == (old(pr.MsgAppFlowPaused) || entries > 0)
+//@   ensures #wf wf_progress(pr) && progress_untouched_but_flow(pr) && pr.State == old(pr.State) && pr.sentCommit == old(pr.sentCommit) && pr.PendingSnapshot == old(pr.PendingSnapshot)
+
+//@ func tracker.Progress.CanBumpCommit [C06]
+//@   pure
+//@   requires pr != nil
+//@   ensures result <==> (index > pr.sentCommit && (pr.Next >= 1 ? pr.sentCommit < pr.Next - 1 : pr.sentCommit < 18446744073709551615))
+
+//@ func tracker.Progress.SentCommit [C06]
+//@   requires pr != nil
+//@   frame tracker.Progress: pr
+//@   ensures pr.sentCommit == commit && pr.Match == old(pr.Match) && pr.Next == old(pr.Next) && pr.State == old(pr.State)
+//@        && pr.PendingSnapshot == old(pr.PendingSnapshot) && pr.MsgAppFlowPaused == old(pr.MsgAppFlowPaused) && progress_untouched_but_flow(pr)
+
+//@ func tracker.Progress.MaybeUpdate [C06 C05]
+//@   requires pr != nil && n < 18446744073709551615
+//@   frame tracker.Progress: pr
+//@   ensures #result [C06] result <==> n > old(pr.Match)
+//@   ensures #updated [C06] result ==> pr.Match == n && pr.Next == max(old(pr.Next), n + 1) && !pr.MsgAppFlowPaused
+//@   ensures #unchanged [C06] !result ==> pr.Match == old(pr.Match) && pr.Next == old(pr.Next) && pr.MsgAppFlowPaused == old(pr.MsgAppFlowPaused)
+//@   ensures #rest pr.State == old(pr.State) && pr.sentCommit == old(pr.sentCommit) && pr.PendingSnapshot == old(pr.PendingSnapshot)
+//@        && pr.IsLearner == old(pr.IsLearner) && pr.RecentActive == old(pr.RecentActive) && pr.Inflights == old(pr.Inflights)
+//@   ensures #match-monotone [C06] pr.Match >= old(pr.Match) && (old(pr.Match) < old(pr.Next) ==> pr.Match < pr.Next)
+
+//@ func tracker.Progress.MaybeDecrTo [C06]
+//@   requires pr != nil && pr.Match < pr.Next && pr.State <= 2 && matchHint < 18446744073709551615
+//@   frame tracker.Progress: pr
+//@   ensures #match-kept [C06] pr.Match == old(pr.Match) && pr.Match < pr.Next && pr.Next <= old(pr.Next)
+//@   ensures #replicate old(pr.State) == StateReplicate ==> (result <==> rejected > pr.Match) && (result ==> pr.Next == pr.Match + 1)
+//@   ensures #probe old(pr.State) != StateReplicate ==> (result <==> old(pr.Next) - 1 == rejected)
+//@        && (result ==> pr.Next == max(min(rejected, matchHint + 1), pr.Match + 1) && !pr.MsgAppFlowPaused)
+//@   ensures #unchanged !result ==> pr.Next == old(pr.Next) && pr.sentCommit == old(pr.sentCommit) && pr.MsgAppFlowPaused == old(pr.MsgAppFlowPaused)
+//@   ensures #sent-commit result ==> pr.sentCommit == min(old(pr.sentCommit), pr.Next - 1)
+//@   ensures #rest pr.State == old(pr.State) && pr.PendingSnapshot == old(pr.PendingSnapshot) && progress_untouched_but_flow(pr)
+
+//@ func tracker.Progress.IsPaused [C16 C14]
+//@   pure
+//@   requires #state [C14] pr != nil && pr.State <= 2
+//@   ensures #snapshot-paused [C16] pr.State == StateSnapshot ==> result
+//@   ensures #flow pr.State != StateSnapshot ==> result == pr.MsgAppFlowPaused
